@@ -6,7 +6,7 @@ import ast as _ast
 from ..common import all_conds, conds_at, mro_methods, nshow, outer_field, paths
 from ..expr import C, SELF, canon, show, strip_epochs, walk
 from ..model import AnalysisError
-from .C14 import quotient_counter_rules
+from .C14 import ARRAYS as QARRAYS, GEOMETRY, geometry_writers, quotient_counter_rules
 
 EXPL = ("THIN SLICE.  Decided: (a) elements_added moves by +1 on every non-raising path of _add, by -1 on every mutating path of "
         "_remove_element and not at all on the absent path, and is reset with the arrays; (b) wrap-around: every index used on "
@@ -167,42 +167,129 @@ INDEX_PARAMS = {"_add": ["q"], "_remove_element": ["q"], "_contained_at_loc": ["
                 "_is_empty_element": ["elt"], "_element_is": ["idx"]}
 
 
+def geometry_lemma(prog, rep):
+    entries, helpers = geometry_writers(prog)
+    n_entries = 0
+    ctor_ok = False
+    for f in entries:
+        bad = None
+        wrote = False
+        for p in paths(prog, CTX, f, force_inline=helpers):
+            if p.exit[0] != "return":
+                continue
+            written = {e.name for e in p.events if e.kind == "setfield" and e.base == SELF and e.name in GEOMETRY + QARRAYS}
+            if not written:
+                continue
+            wrote = True
+            # the values as last assigned (a later call on the receiver keeps the invariant by induction)
+            fin = {n: ("f", SELF, n, 0) for n in GEOMETRY + QARRAYS}
+            for e in p.events:
+                if e.kind == "setfield" and e.base == SELF and e.name in fin:
+                    fin[e.name] = strip_epochs(e.value)
+            q = fin["_q"]
+            size = canon(("bin", "<<", C(1), q))
+            want = {"_r": canon(("bin", "-", C(32), q)), "_size": size, "_QuotientFilter__mod_size": canon(("bin", "-", ("bin", "<<", C(1), q), C(1)))}
+            if "_q" not in written:
+                # the quotient stays: the derived values may stay too, or be recomputed from it
+                for k in want:
+                    if k not in written:
+                        want[k] = ("f", SELF, k, 0)
+            for k, v in want.items():
+                if canon(fin[k]) != v:
+                    bad = bad or (f"{k} = {nshow(fin[k])}", f"{f.src_name} leaves {k} = {nshow(fin[k])} next to _q = {nshow(q)}, expected {nshow(v)}: masking with mod_size no longer keeps "
+                                  "indices inside the arrays, and quotient / remainder are split at the wrong bit")
+            news = {(e.d.get("obj") or ("new", e.cls, None)): e for e in p.events if e.kind == "new"}
+            for k in QARRAYS:
+                v = fin[k]
+                if k not in written:
+                    if "_q" in written:
+                        bad = bad or (f"{k} kept", f"{f.src_name} changes the quotient but keeps {k}: its length is no longer 1 << q")
+                    continue
+                length = None
+                if v[0] == "nary" and v[1] == "*" and any(x[0] == "newb" and x[1] == "array" for x in v[2]):
+                    rest = [x for x in v[2] if not (x[0] == "newb" and x[1] == "array")]
+                    length = canon(rest[0]) if len(rest) == 1 else None
+                elif v[0] == "new" and v[1] == "Bitarray":
+                    e = news.get(v) or next((e for o, e in news.items() if o[:3] == v[:3]), None)
+                    length = canon(strip_epochs(e.args[0])) if e is not None and e.args else None
+                elif v[0] == "f" and v[2] == k and v[1] != SELF:
+                    # storage adopted from another filter: that filter's own invariant gives the length 1 << (its quotient now)
+                    if q != ("f", v[1], "_q", 0):
+                        bad = bad or (f"{k} adopted from {nshow(v[1])}, _q = {nshow(q)}",
+                                      f"{f.src_name} takes over {k} of {nshow(v[1])} but sets its own quotient to {nshow(q)} instead of that filter's quotient at that moment: "
+                                      "if the other filter has resized itself meanwhile, the arrays are laid out for a different quotient than the receiver believes")
+                    continue
+                if length is None or length not in (size, canon(fin["_size"])):
+                    bad = bad or (f"{k} = {nshow(v)}", f"{f.src_name} leaves {k} = {nshow(v)}, which is not an allocation of 1 << q = {nshow(size)} cells")
+            if f.src_name == "__init__" and not bad and written >= set(GEOMETRY + QARRAYS):
+                ctor_ok = True
+        if not wrote:
+            continue
+        n_entries += 1
+        if bad:
+            rep.bad("C04.geometry-lemma", f"{CTX}.{f.src_name}", bad[0], bad[1], f.where())
+        else:
+            rep.ok("C04.geometry-lemma", f"{f.src_name}: size = 1<<q, mod_size = size-1, r = 32-q, arrays and bit vectors of length size")
+    # every field the constructor derives from the quotient (a cached mask, a width ...) is refreshed wherever the quotient changes
+    from ..expr import mapx
+    init = prog.method(CTX, "__init__")
+    derived = {}
+    for p in paths(prog, CTX, init, force_inline=helpers):
+        if p.exit[0] != "return":
+            continue
+        last = {}
+        for e in p.events:
+            if e.kind == "setfield" and e.base == SELF:
+                last[e.name] = strip_epochs(e.value)
+        qp = last.get("_q")
+        if qp is None or qp[0] != "p":
+            continue
+        for k, v in last.items():
+            if k not in GEOMETRY + QARRAYS and any(n == qp for n in walk(v)) and v[0] in ("bin", "nary", "un"):
+                derived.setdefault(k, (qp, v))
+    for f in entries:
+        if f.src_name == "__init__" or not derived:
+            continue
+        stale = None
+        for p in paths(prog, CTX, f, force_inline=helpers):
+            if p.exit[0] != "return":
+                continue
+            last = {}
+            for e in p.events:
+                if e.kind == "setfield" and e.base == SELF:
+                    last[e.name] = strip_epochs(e.value)
+            if "_q" not in last:
+                continue
+            for k, (qp, v) in derived.items():
+                want = canon(mapx(v, lambda n: last["_q"] if n == qp else None))
+                if k not in last:
+                    stale = stale or (k, f"{f.src_name} changes the quotient but leaves {k.replace('_QuotientFilter', '')} as the constructor computed it from the old quotient "
+                                         f"({nshow(v)}): every later use of it splits or masks hashes for a table shape the filter no longer has")
+                elif canon(last[k]) != want:
+                    stale = stale or (k, f"{f.src_name} sets {k.replace('_QuotientFilter', '')} = {nshow(last[k])} next to _q = {nshow(last['_q'])}; the constructor's rule gives {nshow(want)}")
+        if stale:
+            rep.bad("C04.geometry-lemma", f"{CTX}.{f.src_name}", f"{stale[0]} not refreshed", stale[1], f.where())
+        elif any("_q" in {e.name for e in p.events if e.kind == "setfield" and e.base == SELF} for p in paths(prog, CTX, f, force_inline=helpers)):
+            rep.ok("C04.geometry-lemma", f"{f.src_name}: {len(derived)} constructor-derived field(s) refreshed with the quotient")
+    if not ctor_ok and not rep.rules["C04.geometry-lemma"]["violations"]:
+        init = prog.method(CTX, "__init__")
+        rep.bad("C04.geometry-lemma", f"{CTX}.__init__", "constructor does not establish the geometry",
+                "the constructor does not assign all of q, r, size, mod_size and the four arrays on every path", init.where())
+
+
 def check(prog, rep, tier):
     rep.extra["explanation"] = EXPL
     rep.rule("C04.counter", "elements_added: +1 per slot filled, -1 per slot emptied, unchanged when absent, reset with the arrays", floor=3)
     rep.rule("C04.index-in-range", "every index into the remainder array and the bit vectors is in [0, size) on every path", floor=60)
     rep.rule("C04.call-site-index", "every call passes in-range values for the callee's index parameters", floor=15)
-    rep.rule("C04.geometry-lemma", "size = 1 << q, mod_size = size - 1, r = 32 - q, arrays of length size", floor=1)
+    rep.rule("C04.geometry-lemma", "every method that assigns q, r, size, mod_size or an array leaves size = 1 << q, mod_size = size - 1, r = 32 - q and arrays of length size (fresh, or adopted together with the donor's quotient)", floor=2)
     rep.rule("C04.no-duplicate", "_add is reached only when the element is not contained", floor=1)
     rep.rule("C04.reinsert-all", "resize captures the hashes before replacing the arrays and re-inserts every one; merge re-inserts every hash of the operand", floor=2)
     rep.assume("hash values handed to add_alt / remove_alt / check_alt are 32-bit unsigned (the property's domain)")
     quotient_counter_rules(prog, rep, "C04.counter")
-    # geometry lemma
-    sp = prog.method(CTX, "__set_params")
-    okg = True
-    for p in paths(prog, CTX, sp):
-        if p.exit[0] != "return":
-            continue
-        f_ = {k[1]: strip_epochs(v) for k, v in p.fields.items() if k[0] == SELF}
-        q = ("p", "quotient")
-        want = {"_q": q, "_r": canon(("bin", "-", C(32), q)), "_size": canon(("bin", "<<", C(1), q)),
-                "_QuotientFilter__mod_size": canon(("bin", "-", ("bin", "<<", C(1), q), C(1)))}
-        for k, v in want.items():
-            if canon(f_.get(k, C(None))) != v:
-                rep.bad("C04.geometry-lemma", f"{CTX}.__set_params", f"{k} = {nshow(f_.get(k, C(None)))}", f"{k} is {nshow(f_.get(k, C(None)))}, expected {nshow(v)}: masking with mod_size no longer keeps indices inside the arrays", sp.where())
-                okg = False
-        fl = f_.get("_filter")
-        if not (fl and fl[0] == "nary" and fl[1] == "*" and canon(("bin", "<<", C(1), q)) in [canon(x) for x in fl[2]]):
-            rep.bad("C04.geometry-lemma", f"{CTX}.__set_params", "array length", "the remainder array is not allocated with size cells", sp.where())
-            okg = False
-        for b in ("_is_occupied", "_is_continuation", "_is_shifted"):
-            news = [e for e in p.events if e.kind == "new" and e.cls == "Bitarray"]
-            if len(news) != 3 or any(canon(e.args[0]) != canon(("bin", "<<", C(1), q)) for e in news):
-                rep.bad("C04.geometry-lemma", f"{CTX}.__set_params", "bit vector length", "a bit vector is not allocated with size bits", sp.where())
-                okg = False
-                break
-    if okg:
-        rep.ok("C04.geometry-lemma", "size = 1<<q, mod_size = size-1, r = 32-q, arrays and bit vectors of length size")
+    # geometry lemma: an invariant of every method that writes a geometry field (private helpers looked through), so that it does
+    # not hang on how construction is split into helpers
+    geometry_lemma(prog, rep)
     # index uses and call sites
     R = Ranger(prog)
     K = prog.cls(CTX)
@@ -371,28 +458,36 @@ def check(prog, rep, tier):
     # (d) resize / merge
     rz = prog.method(CTX, "resize")
     okr, seen = True, False
-    for p in paths(prog, CTX, rz):
+    _, helpers = geometry_writers(prog)
+    for p in paths(prog, CTX, rz, force_inline=helpers):
         if p.exit[0] != "return":
             continue
-        gh = [i for i, e in enumerate(p.events) if e.kind == "call" and e.target is not None and e.target.src_name == "hashes" and e.recv == SELF and not e.inlined]
-        spi = [i for i, e in enumerate(p.events) if e.kind == "call" and e.target is not None and e.target.src_name == "__set_params"]
-        re_ = [e for e in p.events if e.kind == "call" and e.target is not None and e.target.src_name == "add_alt" and e.loops]
-        if not gh or not spi or gh[0] > spi[0]:
+        gh = [i for i, e in enumerate(p.events) if e.kind == "call" and e.target is not None and e.target.src_name in ("hashes", "get_hashes") and e.recv == SELF and not e.inlined]
+        spi = [i for i, e in enumerate(p.events) if e.kind == "setfield" and e.base == SELF and e.name == "_filter"]
+        if not spi:
+            continue  # nothing replaced on this path
+        donor = strip_epochs(p.events[spi[-1]].value)
+        donor = donor[1] if donor[0] == "f" and donor[2] == "_filter" and donor[1] != SELF else None
+        re_ = [e for e in p.events if e.kind == "call" and e.target is not None and e.target.src_name == "add_alt" and e.loops and
+               ((e.recv == SELF and donor is None) or (donor is not None and strip_epochs(e.recv) == donor))]
+        if not gh or gh[0] > spi[0]:
             rep.bad("C04.reinsert-all", f"{CTX}.resize", "hashes not captured first", "resize does not read the stored hashes before replacing the arrays", rz.where())
             okr = False
             break
         if re_:
             seen = True
             a = strip_epochs(re_[0].args[0])
-            lst = strip_epochs(p.events[gh[0]].result)
+            captured = {strip_epochs(p.events[i].result) for i in gh}
             dom = strip_epochs(a[2]) if a[0] == "it" else None
-            whole = dom is not None and (dom == lst or (dom[0] == "call" and dom[1] == ("g", "list") and dom[2] == (lst,)))
+            while dom is not None and dom[0] == "call" and dom[1] in (("g", "list"), ("g", "tuple"), ("g", "iter")) and len(dom[2]) == 1:
+                dom = dom[2][0]
+            whole = dom is not None and (dom in captured or (dom[0] == "ret" and dom[1].endswith((".hashes", ".get_hashes")) and dom[3] == (SELF,)))
             if not whole:
                 rep.bad("C04.reinsert-all", f"{CTX}.resize", f"re-inserts {nshow(a)}", "resize does not re-insert every captured hash", re_[0].where())
                 okr = False
                 break
     if okr and seen:
-        rep.ok("C04.reinsert-all", f"{CTX}.resize: get_hashes() before __set_params, every hash re-inserted")
+        rep.ok("C04.reinsert-all", f"{CTX}.resize: the stored hashes are read before the arrays are replaced, every hash re-inserted")
     elif okr:
         rep.bad("C04.reinsert-all", f"{CTX}.resize", "nothing re-inserted", "resize replaces the arrays and never re-inserts the stored hashes", rz.where())
     mg = prog.method(CTX, "merge")
@@ -648,6 +743,12 @@ from ..selftest import Mutant, del_stmt, insert_stmt, replace_expr, replace_stmt
 
 _Q = "quotientfilter/quotientfilter.py"
 MUTANTS = [
+    Mutant("remainder mask cached by the constructor only (stale after resize)", _Q,
+           seq(insert_stmt("QuotientFilter", "__init__", "self._rmask = (1 << (32 - quotient)) - 1", after="self.__set_params(quotient, auto_expand, hash_function)"),
+               replace_expr("QuotientFilter", "check_alt", "(1 << self._r) - 1", "self._rmask")), rule="C04.geometry-lemma"),
+    Mutant("remainder mask cached in __set_params (refreshed by resize, same meaning)", _Q,
+           seq(insert_stmt("QuotientFilter", "__set_params", "self._rmask = (1 << (32 - quotient)) - 1", after="self._r: int = 32 - quotient"),
+               replace_expr("QuotientFilter", "check_alt", "(1 << self._r) - 1", "self._rmask")), expect="silent"),
     Mutant("_shift_insert: shifted bit from the run start instead of the slot", _Q, replace_expr("QuotientFilter", "_shift_insert", "insert_idx != q", "orig_idx != q", nth=1), rule="C04.metadata-definition"),
     Mutant("_shift_insert: continuation bit compares the slot with the quotient", _Q, replace_expr("QuotientFilter", "_shift_insert", "insert_idx != orig_idx", "insert_idx != q"), rule="C04.metadata-definition"),
     Mutant("_shift_insert: occupied bit not set on the empty-slot path", _Q, del_stmt("QuotientFilter", "_shift_insert", "self._is_occupied[q] = 1"), rule="C04."),
